@@ -9,6 +9,7 @@ import (
 	"time"
 
 	"github.com/d5/tengo/v2"
+	"github.com/d5/tengo/v2/parser"
 	"github.com/d5/tengo/v2/stdlib"
 	tjson "github.com/d5/tengo/v2/stdlib/json"
 )
@@ -275,6 +276,39 @@ var Probes = []Probe{
 			}
 			if d := time.Since(t0); d > 700*time.Millisecond {
 				return true, fmt.Sprintf("RunContext returned %d ms after the call (deadline 100 ms)", d.Milliseconds())
+			}
+			return false, ""
+		}},
+	{ID: "O44", Props: []string{"C02", "C04"}, Input: "cp := NewCompiler(...); cp.Compile(`1`); bc := cp.Bytecode(); cp.Compile(`1`) again; bc.RemoveDuplicates(); bc.FormatInstructions(); run bc", WhatFail: "Compiler.Bytecode appended OpSuspend to the compiler's own instruction buffer: compiling more code with the same Compiler overwrote the OpSuspend of the Bytecode handed out earlier, and RemoveDuplicates / FormatInstructions / a run of it read outside the instruction stream (index out of range)",
+		Run: func() (fails bool, obs string) {
+			defer func() {
+				if r := recover(); r != nil {
+					fails, obs = true, fmt.Sprintf("panic on the Bytecode taken before the second Compile: %v", r)
+				}
+			}()
+			src := []byte("1\n2\n3\n")
+			sf := parser.NewFileSet().AddFile("(main)", -1, len(src))
+			f, err := parser.NewParser(sf, src, nil).ParseFile()
+			if err != nil {
+				return false, ""
+			}
+			cp := tengo.NewCompiler(sf, nil, nil, nil, nil)
+			if err := cp.Compile(f); err != nil {
+				return false, ""
+			}
+			bc := cp.Bytecode()
+			before := append([]byte{}, bc.MainFunction.Instructions...)
+			if err := cp.Compile(f); err != nil {
+				return false, ""
+			}
+			if string(before) != string(bc.MainFunction.Instructions) {
+				return true, "the instructions of the Bytecode handed out earlier changed when the Compiler compiled more code"
+			}
+			_ = bc.FormatInstructions()
+			bc.RemoveDuplicates()
+			globals := make([]tengo.Object, tengo.GlobalsSize)
+			if err := tengo.NewVM(bc, globals, -1).Run(); err != nil {
+				return true, "run: " + err.Error()
 			}
 			return false, ""
 		}},
